@@ -786,6 +786,20 @@ impl<'a> Tr<'a> {
 
     // ---- the value a function returns
     fn ret(&mut self, e: &Expr) -> R<String> {
+        // the returned expression is a call with an effect on outer variables (table: leteff): its value is the
+        // result, the variables get their new versions first
+        let text = toks(e);
+        if let Some((_, vars, term)) = self.t.leteff.iter().find(|(k, _, _)| *k == text).cloned() {
+            if self.loop_sr.is_empty() && self.loop_depth == 0 && !self.t.retstate.is_empty() && !self.inlining() {
+                let term = self.subst_vars(&term);
+                let mut names = Vec::new();
+                for v in &vars {
+                    names.push(self.rebind(v)?);
+                }
+                let fin = self.final_value("r_v")?;
+                return Ok(format!("obind ({}) (fun '(r_v, {}) => {})", term, Self::tuple_of(&names), fin));
+            }
+        }
         let mut binds = Vec::new();
         let body = self.ret_inner(e, &mut binds)?;
         if let Some(vars) = self.loop_sr.last().cloned() {
@@ -2694,9 +2708,17 @@ fn find_fn<'f>(file: &'f syn::File, name: &str) -> Option<(&'f syn::Signature, &
         Some((a, b)) => (Some(a), b),
         None => (None, name),
     };
+    // a definition compiled only with an optional cargo feature (`#[cfg(feature = "..")]`) or only for tests
+    // is not the one the default build runs; `#[cfg(not(any(feature = ..)))]` is
+    let compiled_out = |attrs: &Vec<syn::Attribute>| -> bool {
+        attrs.iter().any(|a| {
+            let t = toks(a);
+            t.starts_with("#[cfg(feature=") || t.starts_with("#[cfg(test)") || t.starts_with("#[cfg(all(feature=")
+        })
+    };
     for it in &file.items {
         match it {
-            Item::Fn(x) if ty.is_none() && x.sig.ident == f => return Some((&x.sig, &x.block)),
+            Item::Fn(x) if ty.is_none() && x.sig.ident == f && !compiled_out(&x.attrs) => return Some((&x.sig, &x.block)),
             Item::Impl(im) if ty.is_some() && toks(&im.self_ty) == ty.unwrap() => {
                 for ii in &im.items {
                     if let syn::ImplItem::Fn(m) = ii {
